@@ -13,3 +13,6 @@ import Props.C02
 #print axioms C02.trailing_continue_sound
 #print axioms C02.reorder_not_equiv
 #print axioms C02.boolop_values_preserves
+#print axioms C02.duplicate_dict_keys_lookup
+#print axioms C02.duplicate_dict_keys_order_changes
+#print axioms C02.duplicate_set_elts_sound
